@@ -656,7 +656,7 @@ fn model_steps(steps: &[StepRec]) -> Vec<(String, String)> {
             Step::Begin => "OBegin".into(),
             Step::Commit => format!("OCommit {}", zlist(&msyncs(&s.phys))),
             Step::PragmaCkpt => format!("OCkpt {}", zlist(&msyncs(&s.phys))),
-            Step::ApiCkpt => "OApiCkpt".into(),
+            Step::ApiCkpt => format!("OApiCkpt {}", zlist(&msyncs(&s.phys))),
             Step::Reopen => {
                 let cut = s.phys.iter().position(|p| matches!(p, Phys::Io(4, 2004, _))).unwrap_or(s.phys.len());
                 format!("OReopen {} {}", zlist(&msyncs(&s.phys[..cut])), zlist(&msyncs(&s.phys[cut..])))
